@@ -220,15 +220,23 @@ func Build(dir string, units []Unit, results []Result, goBin string, race bool) 
 		if err := os.WriteFile(filepath.Join(dir, "main.go"), []byte(fmt.Sprintf(mainTemplate, strings.Join(imports, "\n"), strings.Join(table, "\n"))), 0o644); err != nil {
 			return nil, err
 		}
-		args := []string{"build", "-o", bin}
-		if race {
-			args = append(args, "-race")
+		// First every package of the module (sub-packages like ast/ or selector/ are not
+		// necessarily imported by the adapter), then the driver itself.
+		all := exec.Command(goBin, "build", "./...")
+		all.Dir = dir
+		all.Env = env
+		out, err := all.CombinedOutput()
+		if err == nil {
+			args := []string{"build", "-o", bin}
+			if race {
+				args = append(args, "-race")
+			}
+			args = append(args, ".")
+			cmd := exec.Command(goBin, args...)
+			cmd.Dir = dir
+			cmd.Env = env
+			out, err = cmd.CombinedOutput()
 		}
-		args = append(args, ".")
-		cmd := exec.Command(goBin, args...)
-		cmd.Dir = dir
-		cmd.Env = env
-		out, err := cmd.CombinedOutput()
 		if err == nil {
 			for i, u := range units {
 				if alive[u.Name] {
@@ -252,6 +260,7 @@ func Build(dir string, units []Unit, results []Result, goBin string, race bool) 
 			if failed[u.Name] && alive[u.Name] {
 				delete(alive, u.Name)
 				results[i].BuildLog = extractLog(string(out), u.Name)
+				os.RemoveAll(filepath.Join(dir, u.Name))
 				progress = true
 			}
 		}
